@@ -45,5 +45,7 @@ func init() {
 		ruleKeyArms(r)
 		ruleSortArms(r)
 		ruleMarkerArms(r)
+		ruleUnits(r, "C01.units", "units", 50, nil)
+		ruleUnitDefs(r)
 	}})
 }
